@@ -1,16 +1,90 @@
-(* C15 - protocol part of "no memory error on valid use": placeholder with the computed refutations of the
-   pre-fix code variants; the unbounded theorems are being added by Avoid/Lifecycle.v. *)
+(* C15 - protocol part of "no memory error, failed assertion or leak on valid use": the ownership /
+   queued-action protocol of Avoid::Router (model: Avoid/LifecycleModel.v, tied to the code by the
+   correspondence harness of checks/c15.py).  Only statements closed by `exact`; the proofs live in
+   Avoid/Lifecycle.v and hold for ALL op lists (invariant over `run`), both transaction modes `t`.
+   `run fk fl t ops`: fk / fl = true is the current (repaired) code, false the code before the F-k / F-l
+   repairs.  Illegal ops (documented preconditions violated) are no-ops in the model, so "for all op
+   lists" means "for all legal histories, interleaved with arbitrary rejected calls". *)
 From Coq Require Import List. Import ListNotations.
-From Adapt Require Import Avoid.LifecycleModel.
+From Adapt Require Import Avoid.LifecycleModel Avoid.Lifecycle.
 
+(* no queued pointer (action object, queued connector-end copy, attached follower) is dereferenced after
+   its object was freed, and nothing is freed twice (free_obj of a non-heap object also logs into `bad`) *)
+Theorem C15_no_use_after_free : forall t ops, bad (run true true t ops) = [].
+Proof. exact no_use_after_free. Qed.
+Print Assumptions C15_no_use_after_free.
+
+Theorem C15_queue_objects_live : forall t ops a,
+  In a (queue (run true true t ops)) -> In (act_obj a) (heap (run true true t ops)).
+Proof. exact queue_objects_live. Qed.
+Print Assumptions C15_queue_objects_live.
+
+(* the ConnEnd copies stored inside queued connector updates - what removeObjectFromQueuedActions forgot *)
+Theorem C15_queue_ends_live : forall t ops a o,
+  In a (queue (run true true t ops)) -> In o (act_end_ids a) -> In o (heap (run true true t ops)).
+Proof. exact queue_ends_live. Qed.
+Print Assumptions C15_queue_ends_live.
+
+Theorem C15_attached_live : forall t ops c w o,
+  In (c, w, o) (attached (run true true t ops)) ->
+  In c (heap (run true true t ops)) /\ In o (heap (run true true t ops)).
+Proof. exact attached_live. Qed.
+Print Assumptions C15_attached_live.
+
+(* freed at most once, in terms of the allocation history *)
+Theorem C15_heap_nodup_fresh : forall t ops,
+  NoDup (heap (run true true t ops)) /\
+  forall x, In x (heap (run true true t ops)) -> ~ In x (freed (run true true t ops)).
+Proof. exact heap_nodup_fresh. Qed.
+Print Assumptions C15_heap_nodup_fresh.
+
+(* nothing is leaked once the router is destroyed *)
+Theorem C15_destroy_releases_all : forall t ops,
+  alive (run true true t ops) = false -> heap (run true true t ops) = [].
+Proof. exact destroy_releases_all. Qed.
+Print Assumptions C15_destroy_releases_all.
+
+(* ---- the code before the repairs violates both properties (witnesses are legal histories) ---- *)
 Theorem C15_uaf_refuted_before_fix :
-  bad (run false true true [ONewObst 1; OProcess; ONewConn 10 (EObst 1) EPoint; ODelObst 1; OProcess]) = [1]
-  /\ bad (run true true true [ONewObst 1; OProcess; ONewConn 10 (EObst 1) EPoint; ODelObst 1; OProcess]) = [].
-Proof. split; vm_compute; reflexivity. Qed.
+  all_legal false true (init true) [ONewObst 1; OProcess; ONewConn 10 (EObst 1) EPoint; ODelObst 1; OProcess] = true /\
+  bad (run false true true [ONewObst 1; OProcess; ONewConn 10 (EObst 1) EPoint; ODelObst 1; OProcess]) = [1].
+Proof. exact uaf_before_fix_witness. Qed.
 Print Assumptions C15_uaf_refuted_before_fix.
 
+Theorem C15_uaf_refuted_before_fix_ex :
+  exists t ops, all_legal false true (init t) ops = true /\ bad (run false true t ops) <> [].
+Proof. exact uaf_refuted_before_fix. Qed.
+Print Assumptions C15_uaf_refuted_before_fix_ex.
+
 Theorem C15_leak_refuted_before_fix :
-  heap (run true false true [ONewObst 2; ONewObst 3; ODestroy]) = [3; 2]
-  /\ heap (run true true true [ONewObst 2; ONewObst 3; ODestroy]) = [].
-Proof. split; vm_compute; reflexivity. Qed.
+  all_legal true false (init true) [ONewObst 2; ONewObst 3; ODestroy] = true /\
+  alive (run true false true [ONewObst 2; ONewObst 3; ODestroy]) = false /\
+  heap (run true false true [ONewObst 2; ONewObst 3; ODestroy]) = [3; 2].
+Proof. exact leak_before_fix_witness. Qed.
 Print Assumptions C15_leak_refuted_before_fix.
+
+Theorem C15_leak_refuted_before_fix_ex :
+  exists t ops, all_legal true false (init t) ops = true /\
+                alive (run true false t ops) = false /\ heap (run true false t ops) <> [].
+Proof. exact leak_refuted_before_fix. Qed.
+Print Assumptions C15_leak_refuted_before_fix_ex.
+
+(* ---- non-vacuity: a legal 14-op history with a move of an obstacle that has an attached connector, a
+   delete inside a pending transaction (of an obstacle a queued connector end refers to) and a destroy
+   with a non-empty queue; it ends with bad = [] and heap = [], and the two pre-fix variants fail on it ---- *)
+Theorem C15_nonvacuous :
+  all_legal true true (init true) demo = true /\ length demo = 14 /\
+  (let s := run true true true (firstn 8 demo) in
+   queue s = [AMove 1; AConn 10 [(true, EObst 2)]; ARemove 2] /\ attached s = [(10, true, 2); (10, false, 1)]) /\
+  (let s := run true true true (firstn 13 demo) in
+   queue s = [AAdd 3; AConn 11 [(false, EObst 3); (true, EPoint)]; AMove 1] /\ alive s = true) /\
+  (let s := run true true true demo in alive s = false /\ bad s = [] /\ heap s = []) /\
+  bad (run false true true demo) = [2] /\ heap (run true false true demo) = [11; 3].
+Proof.
+  exact (conj (proj1 demo_legal) (conj (proj2 demo_legal)
+        (conj (conj (proj1 demo_mid_transaction) (proj1 (proj2 demo_mid_transaction)))
+        (conj (conj (proj1 demo_before_destroy) (proj2 (proj2 (proj2 (proj2 demo_before_destroy)))))
+        (conj (conj (proj1 demo_end) (conj (proj1 (proj2 demo_end)) (proj1 (proj2 (proj2 demo_end)))))
+              demo_before_fixes))))).
+Qed.
+Print Assumptions C15_nonvacuous.
